@@ -108,6 +108,15 @@ def fault_programs(rng, w, n):
         for i in (0, 2, 3, -1, 7):
             for b in (0, 1, 2):
                 out.append((src, [str(i), str(b)], 'two_' + name))
+    # arrays whose length sits at the byte boundary, indexed by a byte-typed and by an int-typed expression
+    for el in ('byte', 'int', 'bool'):
+        for n_ in (254, 255, 256):
+            val = {'byte': "'!'", 'int': '9', 'bool': 'true'}[el]
+            for ity, conv in (('byte', 'k is byte'), ('int', 'k')):
+                srcb = ('%s table[%d]; int canary = 7;\nempty @is_you(int k) { write("pre "); %s i = %s; table[i] = %s; write(canary); %s; write(" post"); }'
+                        % (el, n_, ity, conv, val, show(el, 'table[i]')))
+                for k in (253, 254, 255):
+                    out.append((srcb, [str(k)], 'two_bytelen_%s_%d_%s' % (el, n_, ity)))
     # strings
     for src in ('empty @is_you(string s, int i) { write("pre "); write(s[i] is int); write(" post"); }',
                 'string g = "hey"; empty @is_you(string s, int i) { write("pre "); write(g[i] is int); write("abc"[i]); write(" post"); }',
@@ -147,7 +156,7 @@ def fault_programs(rng, w, n):
     rng.shuffle(out)
     if n >= len(out): return out
     # the ordering family is always represented by the out-of-range index with a zero and a non-zero divisor, and the in-range control
-    must = [o for o in out if o[2].startswith('two_') and (o[2].startswith('two_lengthwrap') or o[2].startswith('two_guard_before') or (o[1][0] in ('3', '0') and o[1][1:2] in (['0'], ['1'])))]
+    must = [o for o in out if o[2].startswith('two_') and (o[2].startswith('two_lengthwrap') or o[2].startswith('two_guard_before') or (o[2].startswith('two_bytelen') and o[1][0] == '255') or (o[1][0] in ('3', '0') and o[1][1:2] in (['0'], ['1'])))]
     rest = [o for o in out if o not in must]
     return must + rest[:max(0, n - len(must))]
 
